@@ -13,6 +13,8 @@ from pv import gallina as G
 from pv.canon import T
 from props import _c15_vk as VK
 from props import _c15_live as LIVE
+from props import _c15_gen as GEN
+from props._c15_gen import TranslateError  # noqa: F401  (pv/core.py recognises the class by name)
 
 ID = "C15"
 COQ_REQUIRE = "C15.Run"
@@ -35,7 +37,8 @@ RULE = ("26 LIVE cases first (real forked children / real sh children of psutil.
         "procs given as list / tuple / generator / set, with ALIASES (the same object twice, equal pair, triple, all doubled, Popen + Process "
         "of one pid) on gone and alive processes; timeout as int / float / bool / Fraction. Non-trivial = at "
         "least one poll or a returned status; distinct = distinct canonical case hash.")
-TRUSTED = ["correspondence harness props/C15.py + props/_c15_vk.py (virtual kernel, virtual clock, fake /proc, set-order control by PID choice)",
+TRUSTED = ["translator props/_c15_gen.py (Python ast of _psposix.wait_pid -> coq/C15/PyGen.v program, fail-closed) and the interpreter coq/C15/PyGen.v (semantics of the 14 statement forms, the fixed while/try skeleton)",
+           "correspondence harness props/C15.py + props/_c15_vk.py (virtual kernel, virtual clock, fake /proc, set-order control by PID choice)",
            "the Python transcription of the property oracle (_spec_wait/_spec_procs in props/_c15_vk.py), used on the implementation's observations",
            "waitpid(2) status word layout and kill(pid,0) semantics transcribed in coq/C15/Spec.v -- compared on every run with the running "
            "kernel by the live cases (props/_c15_live.py); EINTR answers cannot be produced by the real os.waitpid (PEP 475) and stay trusted"]
@@ -46,6 +49,16 @@ ASSUMPTIONS = ["virtual time: a call costs nothing, only sleep() and a blocking 
                "CPython small-set iteration order (ascending hash & mask without collisions) is used to steer wait_procs' iteration order; verified per case, else the case is skipped"]
 EXHAUSTIVE = {"quick": "status decoding: all 256 exit codes and signals 1-64 with/without core flag; wait_procs: all iteration priorities for every generated scenario with <= 3 processes",
               "thorough": "status decoding: all 256 exit codes and signals 1-64 with/without core flag; wait_procs: all iteration priorities for every generated scenario with <= 4 processes"}
+
+
+
+def gen_tables(impl_dir, out_dir):
+    """Translate psutil/_psposix.py: wait_pid (+ the shape of negsig_to_enum / Negsignal) of the tree under check into
+    coq/Gen/C15_Tables.v (gen_wait_pid : PyGen.wprog).  coq/C15/ProofsGen.v proves the interpreter on that program equal
+    to Model.wait_pid for all inputs, so a semantic edit of wait_pid breaks a proof; an edit the translator does not
+    understand raises TranslateError (fail-closed)."""
+    GEN.gen_tables(impl_dir, out_dir)
+
 
 FUEL = 160
 ROUNDS = 60
@@ -634,7 +647,7 @@ def impl_run(case, coq, env):
 
 
 MANIFEST = {
-    "text": "33 theorems (Coq, exact rational virtual time, for every exit instant, timeout, process kind, exit status and EINTR placement incl. a blocking "
+    "text": "36 theorems (Coq, exact rational virtual time, for every exit instant, timeout, process kind, exit status and EINTR placement incl. a blocking "
             "waitpid interrupted at any instant): status decoding; a returned status/None is never early; TimeoutExpired(timeout, pid) only at or after the "
             "deadline, less than 40 ms late, and -- on EINTR-free schedules -- with the process alive (EINTR case refuted with a witness: known finding); "
             "k-th sleep = min(2^k/10000, 1/25), timeout=0 never sleeps, negative timeout -> ValueError; TERMINATION: with a timeout ceil(25*timeout)+12 "
@@ -644,11 +657,15 @@ MANIFEST = {
             "subprocess-side returncode + psutil-side cache): once a status has been collected by either side, 0 included, wait() returns it at once for "
             "every kernel and timeout, along every later history, for every order of reaping (poll/communicate/__exit__ first, or psutil's wait first), and a negative timeout raises ValueError in every state "
             "(the pre-4baf627 order is kept as a legacy variant with a refuted theorem); "
+            "SOURCE TIE BY TRANSLATION: psutil/_psposix.py wait_pid (PID guard, interval, flags and deadline computation, the local sleep() with its deadline test / TimeoutExpired arguments / "
+            "back-off min(interval*2, 0.04), the InterruptedError / ChildProcessError (inner pid_exists loop) / else clauses, retpid test, order WIFEXITED-WIFSIGNALED, sign of the signal) is translated on every run from the tree "
+            "under check into a program of coq/C15/PyGen.v (coq/Gen/C15_Tables.v); C15_gen_wait_pid_is_model proves the interpreter on it equal to Model.wait_pid (result and full state) for every kernel, pid>0, timeout, fuel, start; "
+            "C15_gen_wait_pid_bad_pid the pid<=0 case; C15_gen_wait_pid_modelled that it never leaves the modelled fragment; "
             "ORACLES: the boolean oracles "
             "spec_wait / spec_procs that the harness applies to the implementation are theorems of the model's runs. The model is tied to the code by "
             "running the real psutil over a virtual kernel/clock on placements of the exit instant on and around every polling instant and the deadline "
             "and comparing outcome, every sleep() argument, the return instant and the waitpid-call count.",
-    "note": "The virtual kernel of Spec.v is checked against the running kernel on every run (live cases). Not stated: termination of wait_procs without a timeout. Trusted: Coq kernel + vm_compute; hand-written model coq/C15/Model.v (tied by the correspondence run only); kernel semantics in "
+    "note": "The virtual kernel of Spec.v is checked against the running kernel on every run (live cases). Not stated: termination of wait_procs without a timeout. Trusted: Coq kernel + vm_compute; hand-written model coq/C15/Model.v (wait_pid/loop/decode_status tied to the source by translation + proof, Process.wait / Popen.wait / wait_procs by the correspondence run only); translator props/_c15_gen.py and interpreter coq/C15/PyGen.v; kernel semantics in "
             "coq/C15/Spec.v; harness (virtual kernel/clock, fake /proc, Python transcription of the oracle); CPython, IEEE doubles. "
             "Wall-clock behaviour is outside the model.",
 }
